@@ -238,7 +238,20 @@ def body_cal(case, rec):
                       lambda o=o, k=k, label=label: f"/champion/{k}: {label} {o[k].ravel()[:4]} vs synchronous {base[k].ravel()[:4]}")
 
 
-PARTS = {"observation": body, "k1_sequential_mode": body, "k2_seeded_threads": body_k2, "calibration": body_cal}
+def collision_cases():
+    """Every declaration order of two parameters that share a short name ('level') and one that does not, in product mode (enumerated)."""
+    import itertools
+
+    vals = {KEYS[0]: [3, 1], KEYS[3]: [7, 9], KEYS[5]: [250.0, 150.0]}
+    out = []
+    for order in itertools.permutations([KEYS[0], KEYS[3], KEYS[5]]):
+        for sched in (["synchronous", 1], ["threads", 4]):
+            space = {"mode": "product", "dask": True, "params": [{"key": k, "values": list(vals[k]), "enabled": True, "render": "list"} for k in order]}
+            out.append({"space": space, "sched": sched, "kind": "deterministic", "delay_ms": 1.0, "outputs": sched[1] == 4, "steps": 1, "pipeline_seed": 1})
+    return out
+
+
+PARTS = {"observation": body, "k1_sequential_mode": body, "k2_seeded_threads": body_k2, "calibration": body_cal, "short_name_collisions": body}
 
 
 def known_key(part, clause, case, detail):
@@ -256,4 +269,5 @@ def plan(tier):
         Part(name="k1_sequential_mode", kind="enum", cases=k1_cases, shards=1),
         Part(name="k2_seeded_threads", kind="enum", cases=k2_cases, shards=2),
         Part(name="calibration", kind="gen", strategy=cal_cases, examples=3 if q else 25),
+        Part(name="short_name_collisions", kind="enum", cases=collision_cases),
     ]
